@@ -14,8 +14,17 @@ CLAIMS = {
          "defined in observable.rs, every basic source and every chain of them compute the documented list function, for all "
          "scripts, parameters and closures, cold and hot (no bound). Each run re-executes ~1e5 generated cases (every operator "
          "instance x all scripts <= 4 items x 3 terminals, cold and hot; every source; random chains of depth 2-4 with post-terminal "
-         "calls) on the crate and on the extracted model and specification and compares full traces. average's float multiply is "
-         "modelled, not verified.", "DESIGN.md section 5 C03"),
+         "calls) on the crate and on the extracted model and specification and compares full traces; counts far beyond any script (usize::MAX, "
+         "usize::MAX - 1, 2^33) are among the parameters. Tie by TRANSLATION as well (Props/C03src.v): translator T5 parses the method "
+         "bodies of every single-input observer (next / error / complete, the helper methods they call, and actual_subscribe of the "
+         "operator) from /repo/src on every run into syntax trees; an evaluator written in Coq (Model/RustSem.v) gives them their meaning; "
+         "C03_source_next / C03_source_terminal / C03_source_subscribe: for every operator, every state (take_last: every reachable state), "
+         "every item and error value, the translated body computes exactly the machine's new state and output; "
+         "C03_source_runs_like_the_machine / C03_source_meets_spec: subscribing through the translated actual_subscribe and driving the "
+         "translated observer with ANY call sequence yields run_op, hence the documented list function. A change to any of these bodies "
+         "breaks a tie theorem (reported with the failing input when the case run finds one, else no-failing-input-found). A harness process "
+         "that dies (failed allocation, stack overflow) is narrowed down to the case that kills it, which becomes the failing input. "
+         "average's float multiply is modelled, not verified.", "DESIGN.md section 5 C03 and 11.11"),
  "C04": ("Theorem C04_combinators: each of merge, zip, combine_latest, with_latest_from, take_until, skip_until, sample, buffer, as a "
          "state machine over an arbitrary merged timeline, equals its streaming definition (what each arrival releases, where the output "
          "ends) and is silent afterwards (C04_silent_after_end); closed forms for merge and take_until. Each run executes all pairs of "
@@ -56,7 +65,8 @@ CLAIMS = {
          "delivered through it; the subscriber of group k sees exactly the items of key k in source order and then the source's terminal "
          "once; the stream of groups gets the terminal once; flattening reproduces the source. Each run executes all scripts <= 5 items over "
          "4 values x 4 key functions x Subject/SubjectThreads groups x hot/cold sources on the crate, judges the implementation's trace with "
-         "the extracted predicates and compares it with the model's.", "DESIGN.md section 5 C20"),
+         "the extracted predicates and compares it with the model's; plus a key function with a state of its own, take(N) on the stream of "
+         "groups, and a consumer that leaves the group of one key without a subscriber (announced once all the same).", "DESIGN.md section 5 C20"),
  "C05": ("Theorems over every stimulus sequence (outer items that are synchronous or hot inner observables, terminals, hot inner "
          "notifications in any order) and every limit >= 1 or unbounded: C05_limit (never more than n inner observables subscribed at any "
          "instant, on the observable subscribe/complete trace), C05_downstream_wf, C05_done_not_early / C05_done_not_late (completion exactly "
@@ -70,7 +80,9 @@ CLAIMS = {
          "is not owed - walked with a state computed from stimuli and subscription events only), C05_subscribed_in_outer_order, "
          "C05_concat_keeps_outer_order (limit 1: no other inner observable's item inside an inner observable's turn). Two or three real threads "
          "driving the outer stream, hot inner observables and an unsubscription of merge_all_threads under every schedule with <= 2 context "
-         "switches: no deadlock / panic / hang, grammar, every inner observable's items at most once and in order.", "DESIGN.md section 5 C05"),
+         "switches: no deadlock / panic / hang, grammar, every inner observable's items at most once and in order; with a sequential prologue "
+         "(two running inner observables ending on two threads while synchronous ones wait for a slot): everything arrives and the output "
+         "completes.", "DESIGN.md section 5 C05"),
  "C19": ("Theorems on the scheduler bookkeeping model (Remote::poll, the delay/timer stages of Scheduler::schedule, RepeatTask, "
          "TaskHandle) for one task followed through EVERY sequence of polls, clock advances, cancellations and queries: C19_once_at_most_once, "
          "C19_never_before_delay, C19_repeat_ticks (consecutive sequence numbers, first tick >= one period after scheduling, later ticks >= "
@@ -79,7 +91,10 @@ CLAIMS = {
          "Scheduler::schedule through the crate's hook scheduler under a virtual clock: every label sequence <= 6 for one task of each of 7 "
          "kinds plus 40k random multi-task interleavings; full trace compared with the model and judged by the extracted predicate raw_ok. "
          "PARTIAL: 'is not still running when unsubscribe() returns' across threads is not modelled (single-threaded polls only); the real "
-         "LocalPool/ThreadPool are represented by the choice of poll labels.", "DESIGN.md section 5 C19"),
+         "LocalPool/ThreadPool are represented by the choice of poll labels. The model's one assumption about the real timer - new_timer(d) "
+         "is not ready before d has elapsed - is run against the crate built WITH its timer feature (harness_rt): timer(d) and interval(d) on "
+         "a LocalPool for 18 delays from 0 to beyond 2^64 microseconds (beyond u32 milliseconds / u32 seconds included): never early.",
+         "DESIGN.md section 5 C19"),
  "C07": ("Theorems over the timed system for EVERY label sequence (input notifications, polls of any task at any time and in any order, clock "
          "advances of any size, unsubscribe, queries): C07_delay / C07_observe_on (every delivery is the polled task's own notification, no "
          "earlier than arrival + delay, at most once, never after a terminal or after unsubscribe; delay forwards an error at once), "
@@ -98,7 +113,8 @@ CLAIMS = {
          "apart, never after unsubscribe), C08_interval_prompt (exactly one period apart when polled as the timer falls due), C08_timer (the item "
          "once, not before the due time, then completion), C08_async_prefix / C08_async_complete / C08_future_complete / C08_async_silent_after_unsub (from_future / "
          "from_stream and the _result forms relay exactly what the scripted future / stream yields, then terminate). These predicates are proved "
-         "of the timed model by simulation and evaluated on every implementation trace; full traces are compared with the model on 390k cases.",
+         "of the timed model by simulation and evaluated on every implementation trace; full traces are compared with the model on 390k cases. "
+         "The crate's real timer (feature on, harness_rt) is run on 18 delays from 0 to beyond 2^64 microseconds: timer / interval never early.",
          "DESIGN.md section 5 C08"),
  "C09": ("Theorems over the timed system for EVERY label sequence (input notifications, polls of any task at any time and in any order, clock "
          "advances of any size, unsubscribe, queries): C09_debounce / C09_throttle (all three edges) / C09_*_subsequence (what is delivered "
@@ -135,7 +151,8 @@ CLAIMS = {
          "dropped late additions: both fixed (b95a8c5, b095778). Each run executes all composite histories <= 4 operations (22 kinds) on "
          "MultiSubscription/ZipSubscription and their _threads forms, and is_closed() sampled after every label on 12 timed operators, judged by "
          "the extracted predicates alg_ok / closed_sound_ok and compared with the model. PARTIAL: ref-count and finalizer subscriptions are "
-         "decided under C11 / C15.", "DESIGN.md section 5 C17"),
+         "decided under C11 / C15. A subscribing task on a pool thread while its handle is unsubscribed from another thread: nothing is "
+         "delivered once unsubscribe() has returned.", "DESIGN.md section 5 C17"),
  "C01": ("Theorems: C01_pipeline_grammar (for every pipeline tree of any depth built from subjects - the same one possibly several times - cold "
          "sources, chains of single-input operators and two-input operators, and every sequence of calls on the subjects, calls after a terminal "
          "and repeated terminals included: the trace reaching the subscriber is items, at most one terminal, nothing after), with the "
@@ -189,7 +206,9 @@ CLAIMS = {
          "refutations of the pinned code (a failed source never resolved the future, never ended the stream; wait_for_end could sleep for ever) - "
          "all three repaired by fix: commits. Each run executes every label sequence <= 6 (thorough 8) over {items, complete, error, poll} on "
          "to_future and to_stream and the completion-status cases with the terminal placed before / inside (through a hook) / after the waiter's "
-         "check-then-register window. PARTIAL: real two-thread schedules other than that window are sampled, not enumerated; the channel and "
+         "check-then-register window; to_stream consumed by a task that runs whenever it is woken, also with somebody else polling in between "
+         "with a waker of its own (the task's next poll must register the task's waker again; waking the earlier waker as well is allowed). "
+         "PARTIAL: real two-thread schedules other than that window are sampled, not enumerated; the channel and "
          "AtomicWaker are modelled.", "DESIGN.md section 5 C14"),
  "C13": ("Theorems: C13_building_performs_no_work, C13_no_shared_cell_in_pipeline_values (a table of every struct of /repo/src that implements Observable, with its field "
          "types, regenerated on every run: none but subjects / share / complete_status carries Rc, Arc, RefCell, Cell, Mutex or an atomic), "
@@ -203,8 +222,11 @@ CLAIMS = {
          "notion of 'shared cell' includes the crate's own sharing types and aliases (MultiSubscription, TaskHandle, RcHandler ...). "
          "C13_building_performs_no_work: a second table regenerated on every run classifies the body of every function a pipeline is built "
          "with (136: source constructors, ObservableExt's default methods, the operators' `new`): none calls a closure parameter, subscribes, "
-         "polls, schedules or calls an observer, except the two conversions that subscribe by definition (to_future, to_stream). PARTIAL: "
-         "futures are not exercised dynamically; the laziness table is syntactic.", "DESIGN.md section 5 C13"),
+         "polls, schedules or calls an observer, nor any method that is not itself a building method of ObservableExt (clone / into / new aside), "
+         "except the two conversions that subscribe by definition (to_future, to_stream). C13_no_process_wide_state: the list of every "
+         "`static` item of the crate (regenerated on every run) holds only the timer function installed once and the verification hooks' "
+         "registers. The counting sources include from_iter over a collection whose into_iter() counts; throttle_time is among the operators "
+         "subscribed twice. PARTIAL: futures are not exercised dynamically; the laziness table is syntactic.", "DESIGN.md section 5 C13"),
  "C18": ("Theorems: C18_same_notifications / C18_same_outcome_when_finished (a macro body seen as a sequence of cell acquisitions, releases and "
          "downstream calls delivers the same notifications with RefCell cells and with Mutex cells in one thread; both finish or both fail - the "
          "local form by a panic, the thread-safe one by never returning), C18_both_forms_share_one_body and C18_written_twice_is_reviewed (tables "
@@ -240,6 +262,17 @@ CLAIMS = {
          "DESIGN.md section 5 C15"),
 }
 
+TECH_OF = {
+ "C03": "Coq proof over a model tied to the source twice: by translation (the observers' method bodies parsed from /repo/src on every run and "
+        "evaluated in Coq equal the model's machines, for all states and inputs) and by differential correspondence (extracted model/spec vs the crate)",
+ "C16": "Coq proof over the hand-written model, its back channel tied to a table translated from every `fn is_finished` of /repo/src on every "
+        "run, + differential correspondence check (extracted model/spec vs the crate)",
+ "C13": "Coq proof over the hand-written heap model, tied to tables translated from /repo/src on every run (fields of every observable struct, "
+        "bodies of every building function, every static item) + differential correspondence check with counting sources",
+ "C18": "Coq proof over the cell-discipline model, tied to a table of macro instantiations translated from /repo/src on every run, + both forms "
+        "of every case of the other checks run on the crate and compared",
+}
+
 checks = []
 for pid, (text, ref) in sorted(CLAIMS.items()):
     checks.append({
@@ -249,7 +282,7 @@ for pid, (text, ref) in sorted(CLAIMS.items()):
         "evidence_file": "/verif/evidence/%s.json" % pid,
         "replay_cmd_template": "./check %s --replay {path}" % pid,
         "engine": "coq-model+correspondence",
-        "technique": TECH,
+        "technique": TECH_OF.get(pid, TECH),
         "level_claimed": {"category": "proof", "text": text, "design_ref": ref},
         "level_note": NOTE,
     })
